@@ -132,24 +132,33 @@ Proof. exact contribs_local_iff. Qed.
 Print Assumptions C05_addressing_local.
 
 (** The 0/1 coefficient that switches the XY interaction of masked atoms
-    back on is read one sample late: it is right at every sampled time except
-    t = mask end, where the drive already reaches the masked atoms but their
-    interaction is still off (replayed in corpus/C05/xy-mask-late.json). *)
-Theorem C05_xy_mask_coefficient_partial :
-  forall D e k, (3 <= D)%Z -> (1 <= e)%Z -> (e < D - 1)%Z ->
-    (0 <= k)%Z -> (k <= D - 1)%Z -> k <> e ->
+    back on is "t >= mask end" at every sampled time (full statement; it was
+    one sample late before /repo commit 2116c4ac, regression
+    corpus/C05/xy-mask-late.json). *)
+Theorem C05_xy_mask_coefficient :
+  forall D e k, (2 <= D)%Z -> (0 <= k)%Z -> (k <= D - 1)%Z ->
     unmasked_on_full D e k = negb (k <? e)%Z.
-Proof. exact xy_mask_coefficient_elsewhere. Qed.
-Print Assumptions C05_xy_mask_coefficient_partial.
+Proof. exact xy_mask_coefficient_exact. Qed.
+Print Assumptions C05_xy_mask_coefficient.
 
-Theorem C05_xy_mask_coefficient_refuted_at_mask_end :
-  forall D e, (3 <= D)%Z -> (1 <= e)%Z -> (e < D - 1)%Z ->
-    unmasked_on_full D e e = false
-    /\ forall (R : cops) n mask (c : chan R),
-        ch_global R c = true -> ch_dmm R c = false -> ch_basis R c = 2 ->
-        contribs_of_chan R n mask e e c = [(KG 2, ch_val R c)].
-Proof. exact xy_mask_coefficient_at_mask_end_refuted. Qed.
-Print Assumptions C05_xy_mask_coefficient_refuted_at_mask_end.
+(** Masked atoms are decoupled exactly while the SLM mask is on: drive and
+    interaction switch at the same sampled time. *)
+Theorem C05_xy_mask_drive_and_interaction_agree :
+  forall D e t, (2 <= D)%Z -> (0 <= t)%Z -> (t <= D - 1)%Z ->
+  forall (R : cops) n mask (c : chan R),
+    ch_global R c = true -> ch_dmm R c = false -> ch_basis R c = 2 ->
+    ch_slots R c <> [] ->
+    ((e <= t)%Z ->
+       contribs_of_chan R n mask e t c = [(KG 2, ch_val R c)]
+       /\ forall p, coupled_now true true true (unmasked_on_full D e t) mask p = true)
+    /\ ((t < e)%Z ->
+       contribs_of_chan R n mask e t c
+       = map (fun q => (KL 2 q, ch_val R c))
+             (filter (fun q => negb (memb q mask)) (seq 0 n))
+       /\ forall p, coupled_now true true true (unmasked_on_full D e t) mask p
+                    = negb (memb (fst p) mask || memb (snd p) mask)).
+Proof. exact xy_mask_drive_and_interaction_agree. Qed.
+Print Assumptions C05_xy_mask_drive_and_interaction_agree.
 
 (** The hypotheses on the number type are satisfiable. *)
 Theorem C05_hypotheses_satisfiable : cring_ok qops.
